@@ -8,9 +8,10 @@ int_t @p@ReadVector(FILE *, int_t, int_t *, int_t, int_t);
 void h_vec(void) {
   g_ret = @p@ReadVector(in_fp, in_n, in_where, in_perline, in_persize);
   __CPROVER_assert(0, "canary: reader returns");
-  if (in_n == NMAX && in_perline == PLMAX) __CPROVER_assert(0, "canary: largest instance");
-  if (in_n == NMAX && in_perline == 1) __CPROVER_assert(0, "canary: one item per line");
-  if (in_perline == 4 && in_persize == 20) __CPROVER_assert(0, "canary: fields fill the 80 columns");
-  if (in_n == 5 && in_perline == 3 && g_i == 4) __CPROVER_assert(0, "canary: short last line");
+  if (in_n == NMAX) __CPROVER_assert(0, "canary: largest instance");
+  if (in_perline * in_persize >= 78) __CPROVER_assert(0, "canary: fields fill the 80 columns");
+#if PLFIX > 1
+  if (in_n % in_perline == 1 && g_i == in_n - 1) __CPROVER_assert(0, "canary: last line holds one item");
+#endif
   if (in_n == 0) __CPROVER_assert(0, "canary: empty vector");
 }
